@@ -42,7 +42,33 @@ fn timeout_concrete(secs: u64, nanos: u32) {
     end_ledger();
 }
 
+/// a signal interrupts the timed wait on an idle connected channel: whatever the call answers, it is not
+/// 'empty' after that single interrupted wait (the requested time has not passed), not 'disconnected', and
+/// the channel works afterwards
+fn timeout_interrupted() {
+    setup(64);
+    let (tx, rx) = ipc::channel::<u8>().unwrap();
+    env::set_poll_times_out(true);
+    env::set_block_is_violation(true);
+    env::set_poll_eintr_once(true);
+    let r = rx.try_recv_timeout(Duration::from_millis(1000));
+    assert!(!matches!(r, Ok(_)), "C10: a message out of nowhere");
+    assert!(!is_disc(&r), "C10: an interrupted wait reported as disconnection");
+    assert!(!(is_empty(&r) && env::polls() == 1), "C10: 'empty' reported although the only wait was cut short by a signal");
+    core::mem::forget(r);
+    env::set_poll_times_out(false);
+    let v: u8 = kani::any();
+    tx.send(v).unwrap();
+    let r = rx.try_recv_timeout(Duration::from_millis(5));
+    assert!(matches!(r, Ok(x) if x == v), "C10: channel unusable after an interrupted timed receive");
+    core::mem::forget(r);
+    assert!(!env::is_nonblocking(ph::receiver_fd(ipc::verif_hooks::receiver_os(&rx))), "C10: timed receive left the channel non-blocking");
+    drop((tx, rx));
+    end_ledger();
+}
+
 harnesses! {
+    #[unwind(8)] fn modes_timeout_interrupted() { timeout_interrupted() }
     #[unwind(8)] fn modes_timeout_zero() { timeout_concrete(0, 0) }
     #[unwind(8)] fn modes_timeout_1ns() { timeout_concrete(0, 1) }
     #[unwind(8)] fn modes_timeout_sub_ms() { timeout_concrete(0, 999_999) }
